@@ -1,7 +1,1607 @@
 package main
 
-import "verif/lib/vlib"
+// Part 2: bounded-exhaustive exploration of program semantics.
+//
+// Every program of a size-bounded grammar over the Go subset bondgo accepts is
+//   1. compiled by the compiler built from /repo's current tree (under the controlled scheduler,
+//      because the shipped compiler deadlocks in many free schedules: see part 1),
+//   2. executed: the machine JSON the compiler saved is loaded through procbuilder's own
+//      Machine_json.Dejsoner, wrapped in a BondMachine, rendered to Verilog by the repository's
+//      generators (bmgen.RenderFiles) and simulated cycle by cycle with the vsim engine; the values
+//      appearing on each output port while its valid strobe is high are recorded,
+//   3. evaluated by a reference interpreter working on go/ast with wrap-around at the register size,
+// and the two output traces are compared.
 
-func part2(run *vlib.Run, bt *built) bool { return false }
+import (
+	"bufio"
+	"encoding/json"
+	"fmt"
+	"go/ast"
+	"go/parser"
+	"go/token"
+	"io"
+	"os"
+	"os/exec"
+	"path/filepath"
+	"sort"
+	"strconv"
+	"strings"
+	"sync"
+	"time"
 
-func replaySem(run *vlib.Run, bt *built) {}
+	"github.com/BondMachineHQ/BondMachine/pkg/bondmachine"
+	"github.com/BondMachineHQ/BondMachine/pkg/procbuilder"
+
+	"verif/engines/vsim"
+	"verif/lib/bmgen"
+	"verif/lib/vlib"
+)
+
+// ------------------------------------------------------------------ grammar
+
+type alphabet struct {
+	Name   string
+	Exprs  []string // right hand sides (MAX is replaced by 2^N-1)
+	IncDec []string
+	Writes []string
+	Conds  []string
+	Loops  []string // for headers
+}
+
+var alphaFull = alphabet{
+	Name:   "full",
+	Exprs:  []string{"2", "MAX", "@other", "a + reg_b", "reg_b + MAX", "a * reg_b", "a + reg_b * 2", "bondgo.IORead(i0)", "f(reg_b)"},
+	IncDec: []string{"a++", "a--", "reg_b++", "reg_b--"},
+	Writes: []string{"bondgo.IOWrite(o0, a)", "bondgo.IOWrite(o0, reg_b)", "bondgo.IOWrite(o1, a + reg_b)"},
+	Conds:  []string{"a == reg_b", "a == 2", "reg_b == 0", "a == reg_b == false"},
+	Loops:  []string{"for reg_b = 0; reg_b == 2 == false; reg_b++", "for a = 2; a == 0 == false; a--"},
+}
+
+var alphaMid = alphabet{
+	Name:   "mid",
+	Exprs:  []string{"MAX", "@other", "a + reg_b", "a * reg_b"},
+	IncDec: []string{"a++", "reg_b--"},
+	Writes: []string{"bondgo.IOWrite(o0, a)", "bondgo.IOWrite(o0, reg_b)"},
+	Conds:  []string{"a == reg_b", "reg_b == 0 == false"},
+	Loops:  []string{"for reg_b = 0; reg_b == 2 == false; reg_b++", "for a = 2; a == 0 == false; a--"},
+}
+
+var alphaMidB = alphabet{
+	Name:   "midB",
+	Exprs:  []string{"MAX", "@other", "a + reg_b"},
+	IncDec: []string{"reg_b--"},
+	Writes: []string{"bondgo.IOWrite(o0, a)", "bondgo.IOWrite(o0, reg_b)"},
+	Conds:  []string{"reg_b == 0 == false"},
+	Loops:  []string{"for reg_b = 0; reg_b == 2 == false; reg_b++", "for a = 2; a == 0 == false; a--"},
+}
+
+var alphaTiny = alphabet{
+	Name:   "tiny",
+	Exprs:  []string{"a + reg_b"},
+	IncDec: []string{"a++"},
+	Writes: []string{"bondgo.IOWrite(o0, a)"},
+	Conds:  []string{"a == reg_b"},
+	Loops:  []string{"for reg_b = 0; reg_b == 2 == false; reg_b++"},
+}
+
+var alphaSmall = alphabet{
+	Name:   "small",
+	Exprs:  []string{"MAX", "a + reg_b"},
+	IncDec: []string{"a++"},
+	Writes: []string{"bondgo.IOWrite(o0, a)"},
+	Conds:  []string{"a == reg_b"},
+	Loops:  []string{"for reg_b = 0; reg_b == 2 == false; reg_b++"},
+}
+
+// rejected by the compiler as a whole class ("Unsopported binary operation"): enumerated only to
+// check that the rejection is clean (terminates, no panic, no artefact)
+var rejectedExprs = []string{"a - reg_b", "a & reg_b", "a | reg_b", "a ^ reg_b", "a / reg_b", "a << 1"}
+
+// stmt is a statement tree; size = number of statements including nested ones.
+type stmt struct {
+	text   string // simple statement, or header of a compound
+	kind   string // assign | incdec | write | if | ifelse | for
+	body   []*stmt
+	els    []*stmt
+	target string // assign: variable written
+	reads  string // assign: rhs text
+}
+
+func (s *stmt) hasWrite() bool {
+	if s.kind == "write" {
+		return true
+	}
+	for _, b := range s.body {
+		if b.hasWrite() {
+			return true
+		}
+	}
+	for _, b := range s.els {
+		if b.hasWrite() {
+			return true
+		}
+	}
+	return false
+}
+
+func render(ss []*stmt, ind string, b *strings.Builder) {
+	for _, s := range ss {
+		switch s.kind {
+		case "if", "for":
+			b.WriteString(ind + s.text + " {\n")
+			render(s.body, ind+"\t", b)
+			b.WriteString(ind + "}\n")
+		case "ifelse":
+			b.WriteString(ind + s.text + " {\n")
+			render(s.body, ind+"\t", b)
+			b.WriteString(ind + "} else {\n")
+			render(s.els, ind+"\t", b)
+			b.WriteString(ind + "}\n")
+		default:
+			b.WriteString(ind + s.text + "\n")
+		}
+	}
+}
+
+type enumerator struct {
+	al     alphabet
+	simple []*stmt
+	seqMem map[int][][]*stmt
+	stMem  map[int][]*stmt
+}
+
+func newEnumerator(al alphabet) *enumerator {
+	e := &enumerator{al: al, seqMem: map[int][][]*stmt{}, stMem: map[int][]*stmt{}}
+	for _, tgt := range []string{"a", "reg_b"} {
+		other := "reg_b"
+		if tgt == "reg_b" {
+			other = "a"
+		}
+		for _, x := range al.Exprs {
+			x = strings.ReplaceAll(x, "@other", other)
+			e.simple = append(e.simple, &stmt{text: tgt + " = " + x, kind: "assign", target: tgt, reads: x})
+		}
+	}
+	for _, x := range al.IncDec {
+		e.simple = append(e.simple, &stmt{text: x, kind: "incdec"})
+	}
+	for _, x := range al.Writes {
+		e.simple = append(e.simple, &stmt{text: x, kind: "write"})
+	}
+	return e
+}
+
+// stmts returns every statement of exactly the given size.
+func (e *enumerator) stmts(n int) []*stmt {
+	if n == 1 {
+		return e.simple
+	}
+	if r, ok := e.stMem[n]; ok {
+		return r
+	}
+	var out []*stmt
+	for _, c := range e.al.Conds {
+		for _, body := range e.seqs(n - 1) {
+			out = append(out, &stmt{text: "if " + c, kind: "if", body: body})
+		}
+		for i := 1; i <= n-2; i++ {
+			for _, body := range e.seqs(i) {
+				for _, els := range e.seqs(n - 1 - i) {
+					out = append(out, &stmt{text: "if " + c, kind: "ifelse", body: body, els: els})
+				}
+			}
+		}
+	}
+	for _, l := range e.al.Loops {
+		for _, body := range e.seqs(n - 1) {
+			out = append(out, &stmt{text: l, kind: "for", body: body})
+		}
+	}
+	e.stMem[n] = out
+	return out
+}
+
+// seqs returns every statement sequence of total size n (canonical-form pruning P2 applied).
+func (e *enumerator) seqs(n int) [][]*stmt {
+	if n == 0 {
+		return [][]*stmt{nil}
+	}
+	if r, ok := e.seqMem[n]; ok {
+		return r
+	}
+	var out [][]*stmt
+	for k := 1; k <= n; k++ {
+		for _, first := range e.stmts(k) {
+			for _, rest := range e.seqs(n - k) {
+				// P2: an assignment immediately overwritten by an assignment that does not read it is dead
+				if first.kind == "assign" && len(rest) > 0 && rest[0].kind == "assign" && rest[0].target == first.target && !strings.Contains(rest[0].reads, first.target) {
+					continue
+				}
+				out = append(out, append([]*stmt{first}, rest...))
+			}
+		}
+	}
+	e.seqMem[n] = out
+	return out
+}
+
+// programs returns the canonical programs of exactly size n: P1 the last top-level statement contains a write.
+func (e *enumerator) programs(n int) [][]*stmt {
+	var out [][]*stmt
+	for _, s := range e.seqs(n) {
+		if s[len(s)-1].hasWrite() {
+			out = append(out, s)
+		}
+	}
+	return out
+}
+
+type semProg struct {
+	ID     int
+	Rsize  int
+	Size   int
+	Alpha  string
+	Source string
+	Expect string // accepted | rejected (whole class the compiler refuses)
+	dir    string
+	src    string
+}
+
+const inputValue = 0x5A
+
+func sourceOf(body []*stmt, rsize int) string {
+	var bs strings.Builder
+	render(body, "\t", &bs)
+	txt := bs.String()
+	max := strconv.FormatUint((uint64(1)<<uint(rsize))-1, 10)
+	txt = strings.ReplaceAll(txt, "MAX", max)
+	ut := fmt.Sprintf("uint%d", rsize)
+	var b strings.Builder
+	b.WriteString("package main\n\nimport (\n\t\"bondgo\"\n)\n\n")
+	if strings.Contains(txt, "f(") {
+		b.WriteString("func f(x " + ut + ") " + ut + " {\n\treturn x + x\n}\n\n")
+	}
+	b.WriteString("func main() {\n\tvar o0 bondgo.Output\n")
+	if strings.Contains(txt, "o1") {
+		b.WriteString("\tvar o1 bondgo.Output\n")
+	}
+	if strings.Contains(txt, "i0") {
+		b.WriteString("\tvar i0 bondgo.Input\n")
+	}
+	b.WriteString("\tvar a " + ut + "\n\tvar reg_b " + ut + "\n\to0 = bondgo.Make(bondgo.Output, 3)\n")
+	if strings.Contains(txt, "o1") {
+		b.WriteString("\to1 = bondgo.Make(bondgo.Output, 4)\n")
+	}
+	if strings.Contains(txt, "i0") {
+		b.WriteString("\ti0 = bondgo.Make(bondgo.Input, 5)\n")
+	}
+	b.WriteString(txt)
+	b.WriteString("}\n")
+	return b.String()
+}
+
+// ------------------------------------------------------------------ reference evaluator (go/ast)
+
+type refVal struct {
+	isBool bool
+	b      bool
+	u      uint64
+	io     int // IO handle: index+1 of the output/input (declaration order)
+}
+
+type refEnv struct {
+	mask    uint64
+	vars    []map[string]*refVal
+	funcs   map[string]*ast.FuncDecl
+	outs    map[string]int // output variable -> port index (declaration order)
+	ins     map[string]int
+	trace   map[int][]uint64
+	steps   int
+	limit   int
+	err     error
+	retVal  *refVal
+	retFlag bool
+}
+
+type refResult struct {
+	Outs    map[int][]uint64
+	Steps   int
+	Err     string // evaluator cannot handle the program (harness limit) or step limit
+	NOut    int
+	Timeout bool
+}
+
+func refEval(src string, rsize int) refResult {
+	fset := token.NewFileSet()
+	f, err := parser.ParseFile(fset, "p.go", src, 0)
+	if err != nil {
+		return refResult{Err: "parse: " + err.Error()}
+	}
+	env := &refEnv{mask: (uint64(1) << uint(rsize)) - 1, funcs: map[string]*ast.FuncDecl{}, outs: map[string]int{}, ins: map[string]int{}, trace: map[int][]uint64{}, limit: 20000}
+	if rsize == 64 {
+		env.mask = ^uint64(0)
+	}
+	for _, d := range f.Decls {
+		if fd, ok := d.(*ast.FuncDecl); ok {
+			env.funcs[fd.Name.Name] = fd
+		}
+	}
+	mainf := env.funcs["main"]
+	if mainf == nil {
+		return refResult{Err: "no main"}
+	}
+	env.push()
+	env.block(mainf.Body.List)
+	r := refResult{Outs: env.trace, Steps: env.steps, NOut: len(env.outs)}
+	if env.err != nil {
+		r.Err = env.err.Error()
+		r.Timeout = env.steps > env.limit
+	}
+	return r
+}
+
+func (e *refEnv) push() { e.vars = append(e.vars, map[string]*refVal{}) }
+func (e *refEnv) pop()  { e.vars = e.vars[:len(e.vars)-1] }
+func (e *refEnv) lookup(n string) *refVal {
+	for i := len(e.vars) - 1; i >= 0; i-- {
+		if v, ok := e.vars[i][n]; ok {
+			return v
+		}
+	}
+	return nil
+}
+func (e *refEnv) fail(f string, a ...any) {
+	if e.err == nil {
+		e.err = fmt.Errorf(f, a...)
+	}
+}
+
+func (e *refEnv) block(list []ast.Stmt) {
+	for _, s := range list {
+		if e.err != nil || e.retFlag {
+			return
+		}
+		e.stmt(s)
+	}
+}
+
+func (e *refEnv) stmt(s ast.Stmt) {
+	e.steps++
+	if e.steps > e.limit {
+		e.fail("step limit")
+		return
+	}
+	switch x := s.(type) {
+	case *ast.DeclStmt:
+		gd, ok := x.Decl.(*ast.GenDecl)
+		if !ok || gd.Tok != token.VAR {
+			e.fail("unsupported declaration")
+			return
+		}
+		for _, sp := range gd.Specs {
+			vs := sp.(*ast.ValueSpec)
+			for _, n := range vs.Names {
+				v := &refVal{}
+				if se, ok := vs.Type.(*ast.SelectorExpr); ok {
+					switch se.Sel.Name {
+					case "Output":
+						e.outs[n.Name] = len(e.outs)
+						v.io = -(len(e.outs)) // negative: output
+					case "Input":
+						e.ins[n.Name] = len(e.ins)
+						v.io = len(e.ins)
+					}
+				} else if id, ok := vs.Type.(*ast.Ident); ok && id.Name == "bool" {
+					v.isBool = true
+				}
+				e.vars[len(e.vars)-1][n.Name] = v
+			}
+		}
+	case *ast.AssignStmt:
+		if x.Tok != token.ASSIGN || len(x.Lhs) != 1 || len(x.Rhs) != 1 {
+			e.fail("unsupported assignment")
+			return
+		}
+		id, ok := x.Lhs[0].(*ast.Ident)
+		if !ok {
+			e.fail("unsupported lhs")
+			return
+		}
+		dst := e.lookup(id.Name)
+		if dst == nil {
+			e.fail("undefined %s", id.Name)
+			return
+		}
+		if dst.io != 0 { // o0 = bondgo.Make(...): binding only
+			return
+		}
+		v := e.expr(x.Rhs[0])
+		if e.err != nil {
+			return
+		}
+		dst.isBool, dst.b, dst.u = v.isBool, v.b, v.u&e.mask
+	case *ast.IncDecStmt:
+		id, ok := x.X.(*ast.Ident)
+		if !ok {
+			e.fail("unsupported incdec")
+			return
+		}
+		dst := e.lookup(id.Name)
+		if dst == nil {
+			e.fail("undefined %s", id.Name)
+			return
+		}
+		if x.Tok == token.INC {
+			dst.u = (dst.u + 1) & e.mask
+		} else {
+			dst.u = (dst.u - 1) & e.mask
+		}
+	case *ast.ExprStmt:
+		call, ok := x.X.(*ast.CallExpr)
+		if !ok {
+			e.fail("unsupported expression statement")
+			return
+		}
+		if se, ok := call.Fun.(*ast.SelectorExpr); ok && se.Sel.Name == "IOWrite" && len(call.Args) == 2 {
+			o, ok := call.Args[0].(*ast.Ident)
+			if !ok {
+				e.fail("IOWrite target")
+				return
+			}
+			port, ok := e.outs[o.Name]
+			if !ok {
+				e.fail("IOWrite on a non output")
+				return
+			}
+			v := e.expr(call.Args[1])
+			if e.err != nil {
+				return
+			}
+			e.trace[port] = append(e.trace[port], v.u&e.mask)
+			return
+		}
+		e.expr(call) // plain function call statement
+	case *ast.IfStmt:
+		if x.Init != nil {
+			e.stmt(x.Init)
+		}
+		c := e.expr(x.Cond)
+		if e.err != nil {
+			return
+		}
+		if c.b {
+			e.push()
+			e.block(x.Body.List)
+			e.pop()
+		} else if x.Else != nil {
+			e.stmt(x.Else)
+		}
+	case *ast.BlockStmt:
+		e.push()
+		e.block(x.List)
+		e.pop()
+	case *ast.ForStmt:
+		if x.Init != nil {
+			e.stmt(x.Init)
+		}
+		for e.err == nil && !e.retFlag {
+			if x.Cond != nil {
+				c := e.expr(x.Cond)
+				if e.err != nil || !c.b {
+					break
+				}
+			}
+			e.push()
+			e.block(x.Body.List)
+			e.pop()
+			if x.Post != nil {
+				e.stmt(x.Post)
+			}
+			e.steps++
+			if e.steps > e.limit {
+				e.fail("step limit")
+			}
+		}
+	case *ast.ReturnStmt:
+		if len(x.Results) == 1 {
+			v := e.expr(x.Results[0])
+			e.retVal = &v
+		}
+		e.retFlag = true
+	default:
+		e.fail("unsupported statement %T", s)
+	}
+}
+
+func (e *refEnv) expr(x ast.Expr) refVal {
+	switch t := x.(type) {
+	case *ast.BasicLit:
+		if t.Kind != token.INT {
+			e.fail("unsupported literal")
+			return refVal{}
+		}
+		u, err := strconv.ParseUint(t.Value, 0, 64)
+		if err != nil {
+			e.fail("literal %s", t.Value)
+		}
+		return refVal{u: u & e.mask}
+	case *ast.Ident:
+		switch t.Name {
+		case "true":
+			return refVal{isBool: true, b: true}
+		case "false":
+			return refVal{isBool: true}
+		}
+		v := e.lookup(t.Name)
+		if v == nil {
+			e.fail("undefined %s", t.Name)
+			return refVal{}
+		}
+		return *v
+	case *ast.ParenExpr:
+		return e.expr(t.X)
+	case *ast.BinaryExpr:
+		l := e.expr(t.X)
+		r := e.expr(t.Y)
+		if e.err != nil {
+			return refVal{}
+		}
+		switch t.Op {
+		case token.ADD:
+			return refVal{u: (l.u + r.u) & e.mask}
+		case token.SUB:
+			return refVal{u: (l.u - r.u) & e.mask}
+		case token.MUL:
+			return refVal{u: (l.u * r.u) & e.mask}
+		case token.AND:
+			return refVal{u: l.u & r.u}
+		case token.OR:
+			return refVal{u: l.u | r.u}
+		case token.XOR:
+			return refVal{u: l.u ^ r.u}
+		case token.EQL:
+			if l.isBool != r.isBool {
+				e.fail("== on mixed types")
+				return refVal{}
+			}
+			if l.isBool {
+				return refVal{isBool: true, b: l.b == r.b}
+			}
+			return refVal{isBool: true, b: l.u == r.u}
+		}
+		e.fail("unsupported operator %s", t.Op)
+		return refVal{}
+	case *ast.CallExpr:
+		if se, ok := t.Fun.(*ast.SelectorExpr); ok {
+			switch se.Sel.Name {
+			case "IORead":
+				return refVal{u: inputValue & e.mask}
+			case "Make":
+				return refVal{}
+			}
+			e.fail("unsupported call %s", se.Sel.Name)
+			return refVal{}
+		}
+		id, ok := t.Fun.(*ast.Ident)
+		if !ok {
+			e.fail("unsupported call")
+			return refVal{}
+		}
+		fd := e.funcs[id.Name]
+		if fd == nil {
+			e.fail("undefined function %s", id.Name)
+			return refVal{}
+		}
+		var args []refVal
+		for _, a := range t.Args {
+			args = append(args, e.expr(a))
+		}
+		saved := e.vars
+		e.vars = nil
+		e.push()
+		i := 0
+		for _, p := range fd.Type.Params.List {
+			for _, n := range p.Names {
+				if i < len(args) {
+					v := args[i]
+					e.vars[0][n.Name] = &v
+				}
+				i++
+			}
+		}
+		e.retVal, e.retFlag = nil, false
+		e.block(fd.Body.List)
+		rv := e.retVal
+		e.retVal, e.retFlag = nil, false
+		e.vars = saved
+		if rv == nil {
+			return refVal{}
+		}
+		return *rv
+	}
+	e.fail("unsupported expression %T", x)
+	return refVal{}
+}
+
+// ------------------------------------------------------------------ executor (generated HDL under vsim)
+
+type hdlResult struct {
+	Status string // ran | not-simulable | no-end | rom-full | empty-program
+	Detail string
+	Outs   map[int][]uint64
+	Cycles int
+	M      int
+	Diverg string // lockstep against the ISA model: opcode whose hardware first behaves differently ("" = none seen)
+	DivHow string
+}
+
+var tCompile, tRender, tSim, tRef atomicDur
+
+type atomicDur struct {
+	mu sync.Mutex
+	d  time.Duration
+}
+
+func (a *atomicDur) add(t0 time.Time) {
+	a.mu.Lock()
+	a.d += time.Since(t0)
+	a.mu.Unlock()
+}
+
+var renderMu sync.Mutex // the generators of /repo keep package-level state (opcode registry, ...): render one machine at a time
+
+func execHDL(machJSON []byte, asm string, maxCycles int) (res hdlResult) {
+	defer func() {
+		if p := recover(); p != nil {
+			res = hdlResult{Status: "not-simulable", Detail: fmt.Sprint("panic: ", p)}
+		}
+	}()
+	var mj procbuilder.Machine_json
+	if err := json.Unmarshal(machJSON, &mj); err != nil {
+		return hdlResult{Status: "not-simulable", Detail: "machine json: " + err.Error()}
+	}
+	tr := time.Now()
+	renderMu.Lock() // (uncontended: one request at a time per worker process)
+	m := (&mj).Dejsoner()
+	for _, op := range m.Op {
+		if op == nil {
+			renderMu.Unlock()
+			return hdlResult{Status: "not-simulable", Detail: "machine JSON names an opcode procbuilder does not know"}
+		}
+	}
+	proglen := len(m.Program.Slocs)
+	bm := bmgen.SingleBM(m)
+	files, err := bmgen.RenderFiles(bm, new(bondmachine.Config), "iverilog")
+	renderMu.Unlock()
+	tRender.add(tr)
+	defer tSim.add(time.Now())
+	if err != nil {
+		return hdlResult{Status: "not-simulable", Detail: "render: " + err.Error()}
+	}
+	res.M = int(m.M)
+	if proglen == 0 {
+		return hdlResult{Status: "empty-program", Outs: map[int][]uint64{}, M: int(m.M)}
+	}
+	romFull := proglen >= 1<<uint(m.O)
+	if romFull {
+		// the program fills the ROM: the end of the first pass is the wrap of the program counter after
+		// the last instruction, observable only if that instruction cannot jump
+		ap, _ := parseAsm(asm)
+		if len(ap) != proglen || ap[proglen-1].op == "j" || ap[proglen-1].op == "jz" || ap[proglen-1].op == "je" {
+			return hdlResult{Status: "rom-full", Detail: "program fills the ROM and ends with a jump: the end of the first pass cannot be observed", M: int(m.M)}
+		}
+	}
+	d, diags := vsim.Parse(files)
+	for _, dg := range diags {
+		return hdlResult{Status: "not-simulable", Detail: fmt.Sprintf("%s %s:%d %s", dg.Class, dg.File, dg.Line, dg.Msg)}
+	}
+	sim, err := d.Elaborate("bondmachine", nil)
+	if err != nil {
+		return hdlResult{Status: "not-simulable", Detail: "elaborate: " + err.Error()}
+	}
+	look := func(n string) vsim.SigID {
+		id, ok := sim.Lookup(n)
+		if !ok {
+			panic("signal " + n + " not found")
+		}
+		return id
+	}
+	clk, rst, pc := look("clk"), look("reset"), look("a0_inst.p0_instance._pc")
+	var ov, oval []vsim.SigID
+	if err := sim.Init(); err != nil {
+		return hdlResult{Status: "not-simulable", Detail: "init: " + err.Error()}
+	}
+	for k := 0; k < int(m.M); k++ {
+		ov = append(ov, look("o"+strconv.Itoa(k)))
+		oval = append(oval, look("o"+strconv.Itoa(k)+"_valid"))
+		sim.Set(look("o"+strconv.Itoa(k)+"_received"), 1) // consumer always ready: valid is high for exactly one cycle per write
+	}
+	for k := 0; k < int(m.N); k++ {
+		sim.Set(look("i"+strconv.Itoa(k)), inputValue&((uint64(1)<<uint(m.Rsize))-1))
+		sim.Set(look("i"+strconv.Itoa(k)+"_valid"), 1)
+	}
+	sim.Set(rst, 0)
+	sim.Set(clk, 0)
+	if err := sim.Posedge(rst); err != nil {
+		return hdlResult{Status: "not-simulable", Detail: "reset: " + err.Error()}
+	}
+	sim.Posedge(clk)
+	sim.Negedge(clk)
+	sim.Negedge(rst)
+	res.Outs = map[int][]uint64{}
+	res.Status = "no-end"
+	// lockstep against the ISA model (attribution only)
+	var model *isaState
+	var regSig []vsim.SigID
+	if prog, _ := parseAsm(asm); len(prog) == proglen {
+		model = newISA(prog, int(m.Rsize))
+		for i := 0; i < 1<<uint(m.R); i++ {
+			if id, ok := sim.Lookup("a0_inst.p0_instance._r" + strconv.Itoa(i)); ok {
+				regSig = append(regSig, id)
+			}
+		}
+	}
+	prevpc := int(sim.Get(pc))
+	for c := 0; c < maxCycles; c++ {
+		if err := sim.Posedge(clk); err != nil {
+			return hdlResult{Status: "not-simulable", Detail: "clock: " + err.Error()}
+		}
+		for k := range ov {
+			if sim.Get(oval[k]) != 0 {
+				res.Outs[k] = append(res.Outs[k], sim.Get(ov[k]))
+			}
+		}
+		p := int(sim.Get(pc))
+		ended := romFull && prevpc == proglen-1 && p == 0
+		if ended && model != nil {
+			model.pc = proglen - 1 // the model leaves the program where the hardware wraps
+			if model.step() && model.pc == proglen {
+				model = nil
+			}
+		}
+		if model != nil && p != prevpc {
+			// the hardware completed the instruction at prevpc
+			in := model.prog[model.pc]
+			selfJump := false
+			if model.pc != prevpc {
+				model = nil
+			} else if ok := model.step(); !ok && model.err != "" {
+				model = nil
+			} else if selfJump = model.pc == prevpc; selfJump {
+				model = nil
+			} else if model.pc != p && !(model.pc >= proglen && p >= proglen) {
+				res.Diverg, res.DivHow = in.op, fmt.Sprintf("after `%s %s` at %d the hardware continues at %d, the ISA model at %d", in.op, strings.Join(in.args, " "), prevpc, p, model.pc)
+				model = nil
+			} else {
+				for i, id := range regSig {
+					if hv := sim.Get(id); hv != model.regs[i] {
+						res.Diverg, res.DivHow = in.op, fmt.Sprintf("after `%s %s` at %d register r%d is %d in the hardware, %d in the ISA model", in.op, strings.Join(in.args, " "), prevpc, i, hv, model.regs[i])
+						model = nil
+						break
+					}
+				}
+			}
+		}
+		prevpc = p
+		sim.Negedge(clk)
+		res.Cycles = c + 1
+		if p >= proglen || (romFull && ended) {
+			res.Status = "ran"
+			break
+		}
+	}
+	if e := sim.Err(); e != nil {
+		return hdlResult{Status: "not-simulable", Detail: "simulation: " + e.Error()}
+	}
+	return res
+}
+
+// ------------------------------------------------------------------ executor worker processes
+//
+// The HDL generators of /repo keep package-level state and are not goroutine safe, so the driver
+// re-executes itself as N worker processes (flag -semworker): one JSON request per line on stdin
+// ({Mach, Asm, MaxCycles}), one hdlResult per line on stdout.
+
+type execReq struct {
+	Mach      string
+	Asm       string
+	MaxCycles int
+}
+
+func semWorkerMain() {
+	in := bufio.NewReaderSize(os.Stdin, 1<<20)
+	out := bufio.NewWriter(os.Stdout)
+	for {
+		line, err := in.ReadBytes('\n')
+		if len(line) > 1 {
+			var rq execReq
+			var res hdlResult
+			if e := json.Unmarshal(line, &rq); e != nil {
+				res = hdlResult{Status: "not-simulable", Detail: "worker: " + e.Error()}
+			} else {
+				res = execHDL([]byte(rq.Mach), rq.Asm, rq.MaxCycles)
+			}
+			b, _ := json.Marshal(res)
+			out.Write(b)
+			out.WriteByte('\n')
+			out.Flush()
+		}
+		if err != nil {
+			return
+		}
+	}
+}
+
+type execWorker struct {
+	cmd *exec.Cmd
+	in  io.WriteCloser
+	out *bufio.Reader
+}
+
+func startExecWorker() (*execWorker, error) {
+	self, err := os.Executable()
+	if err != nil {
+		return nil, err
+	}
+	c := exec.Command(self, "-semworker")
+	c.Stderr = nil
+	in, err := c.StdinPipe()
+	if err != nil {
+		return nil, err
+	}
+	outp, err := c.StdoutPipe()
+	if err != nil {
+		return nil, err
+	}
+	if err := c.Start(); err != nil {
+		return nil, err
+	}
+	return &execWorker{cmd: c, in: in, out: bufio.NewReaderSize(outp, 1<<20)}, nil
+}
+
+func (w *execWorker) stop() {
+	w.in.Close()
+	w.cmd.Wait()
+}
+
+// run executes one machine; a worker that dies (generator calling os.Exit, fatal runtime error) is
+// restarted and the program counted as not simulable.
+func (w *execWorker) run(mach []byte, asm string, maxCycles int) hdlResult {
+	b, _ := json.Marshal(execReq{Mach: string(mach), Asm: asm, MaxCycles: maxCycles})
+	b = append(b, '\n')
+	if _, err := w.in.Write(b); err == nil {
+		if line, err := w.out.ReadBytes('\n'); err == nil {
+			var r hdlResult
+			if json.Unmarshal(line, &r) == nil {
+				return r
+			}
+		}
+	}
+	w.stop()
+	if nw, err := startExecWorker(); err == nil {
+		*w = *nw
+	}
+	return hdlResult{Status: "not-simulable", Detail: "executor worker process died while rendering/simulating (os.Exit or fatal error in the generator)"}
+}
+
+// ------------------------------------------------------------------ driver
+
+type semOutcome struct {
+	Prog         *semProg
+	Class        string // ok | rejected | mismatch | ... (see part2)
+	Detail       string
+	Expected     map[int][]uint64
+	Got          map[int][]uint64
+	Asm          string
+	Log          string
+	Missing      []string // opcodes used by the emitted assembly but absent from the requested machine
+	Machine      string   // machine-mismatch: opcode whose hardware diverges from the ISA model
+	ISADisagrees bool
+}
+
+// features lists the constructs a program uses (go/ast walk of main); used to group failures.
+func features(src string) []string {
+	f := map[string]bool{}
+	fset := token.NewFileSet()
+	file, err := parser.ParseFile(fset, "p.go", src, 0)
+	if err != nil {
+		return []string{"unparsable"}
+	}
+	kindOf := func(name string) string {
+		if strings.HasPrefix(name, "reg_") {
+			return "reg"
+		}
+		return "mem"
+	}
+	var expr func(x ast.Expr)
+	expr = func(x ast.Expr) {
+		switch t := x.(type) {
+		case *ast.BinaryExpr:
+			switch t.Op {
+			case token.ADD:
+				f["add"] = true
+			case token.MUL:
+				f["mult"] = true
+			case token.EQL:
+				if id, ok := t.Y.(*ast.Ident); ok && (id.Name == "false" || id.Name == "true") {
+					f["eq-bool"] = true
+				}
+			default:
+				f["op"+t.Op.String()] = true
+			}
+			expr(t.X)
+			expr(t.Y)
+		case *ast.CallExpr:
+			if se, ok := t.Fun.(*ast.SelectorExpr); ok {
+				if se.Sel.Name == "IORead" {
+					f["ioread"] = true
+				}
+			} else {
+				f["call"] = true
+			}
+			for _, a := range t.Args {
+				expr(a)
+			}
+		case *ast.ParenExpr:
+			expr(t.X)
+		}
+	}
+	var walk func(list []ast.Stmt, depth int)
+	incdec := func(x *ast.IncDecStmt, depth int) {
+		if id, ok := x.X.(*ast.Ident); ok {
+			f["incdec-"+kindOf(id.Name)] = true
+		}
+		if depth >= 2 {
+			f["incdec-nested"] = true
+		}
+	}
+	var stmt func(s ast.Stmt, depth int)
+	stmt = func(s ast.Stmt, depth int) {
+		switch x := s.(type) {
+		case *ast.AssignStmt:
+			if id, ok := x.Lhs[0].(*ast.Ident); ok {
+				if call, ok := x.Rhs[0].(*ast.CallExpr); ok {
+					if se, ok := call.Fun.(*ast.SelectorExpr); ok && se.Sel.Name == "Make" {
+						return
+					}
+				}
+				f["assign-"+kindOf(id.Name)] = true
+			}
+			expr(x.Rhs[0])
+		case *ast.IncDecStmt:
+			incdec(x, depth)
+		case *ast.ExprStmt:
+			if call, ok := x.X.(*ast.CallExpr); ok {
+				if se, ok := call.Fun.(*ast.SelectorExpr); ok && se.Sel.Name == "IOWrite" && len(call.Args) == 2 {
+					if o, ok := call.Args[0].(*ast.Ident); ok && o.Name != "o0" {
+						f["second-output"] = true
+					}
+					if _, ok := call.Args[1].(*ast.Ident); !ok {
+						f["write-expr"] = true
+					}
+					expr(call.Args[1])
+					return
+				}
+				expr(call)
+			}
+		case *ast.IfStmt:
+			f["if"] = true
+			if depth >= 1 {
+				f["nested"] = true
+			}
+			expr(x.Cond)
+			walk(x.Body.List, depth+1)
+			if x.Else != nil {
+				f["else"] = true
+				if b, ok := x.Else.(*ast.BlockStmt); ok {
+					walk(b.List, depth+1)
+				}
+			}
+		case *ast.ForStmt:
+			v := "mem"
+			if as, ok := x.Init.(*ast.AssignStmt); ok {
+				if id, ok := as.Lhs[0].(*ast.Ident); ok {
+					v = kindOf(id.Name)
+				}
+			}
+			f["for-"+v] = true
+			if depth >= 1 {
+				f["nested"] = true
+			}
+			if x.Cond != nil {
+				expr(x.Cond)
+			}
+			if p, ok := x.Post.(*ast.IncDecStmt); ok {
+				incdec(p, depth+1)
+			}
+			walk(x.Body.List, depth+1)
+		}
+	}
+	walk = func(list []ast.Stmt, depth int) {
+		for _, s := range list {
+			stmt(s, depth)
+		}
+	}
+	for _, d := range file.Decls {
+		if fd, ok := d.(*ast.FuncDecl); ok && fd.Name.Name == "main" {
+			walk(fd.Body.List, 0)
+		}
+	}
+	return keys(f)
+}
+
+type semPlan struct {
+	Alpha alphabet
+	Sizes []int
+	Rsize int
+}
+
+func semPlans(thorough bool) []semPlan {
+	if !thorough {
+		return []semPlan{
+			{alphaFull, []int{1, 2}, 8},
+			{alphaMid, []int{3}, 8},
+			{alphaMid, []int{1, 2}, 16},
+		}
+	}
+	return []semPlan{
+		{alphaFull, []int{1, 2, 3}, 8},
+		{alphaFull, []int{1, 2}, 16},
+		{alphaMid, []int{3}, 16},
+		{alphaSmall, []int{4}, 8},
+		{alphaMidB, []int{4}, 8},
+		{alphaTiny, []int{5}, 8},
+	}
+}
+
+func fmtOuts(m map[int][]uint64, n int) string {
+	var parts []string
+	for k := 0; k < n; k++ {
+		parts = append(parts, fmt.Sprintf("o%d=%v", k, m[k]))
+	}
+	return strings.Join(parts, " ")
+}
+
+func outsEqual(a, b map[int][]uint64, n int) bool {
+	for k := 0; k < n; k++ {
+		x, y := a[k], b[k]
+		if len(x) != len(y) {
+			return false
+		}
+		for i := range x {
+			if x[i] != y[i] {
+				return false
+			}
+		}
+	}
+	return true
+}
+
+// compileBatch compiles the programs with the instrumented compiler (batch mode of the child harness).
+func compileBatch(bt *built, progs []*semProg, rsize int, tag string) ([]struct {
+	Status, Panic, Detail string
+	Choices               []int
+	Tries                 int
+}, error) {
+	var items []map[string]string
+	for _, p := range progs {
+		items = append(items, map[string]string{"Src": p.src, "Dir": p.dir})
+	}
+	dir := filepath.Join(bt.Scratch, "sem", "batch-"+tag)
+	sem <- struct{}{}
+	defer func() { <-sem }()
+	os.MkdirAll(dir, 0o755)
+	out := filepath.Join(dir, ".c12.report.json")
+	optsFile := map[string]any{"Out": out, "Batch": items}
+	ob, _ := json.Marshal(optsFile)
+	args := []string{"-input-file", "placeholder.go", "-register-size", fmt.Sprint(rsize), "-show-requirements", "-save-assembly", "out.asm", "-save-machine", "m.json"}
+	b, err := runRaw(bt.GsBin, args, dir, []string{"VERIF_C12_MODE=batch", "VERIF_C12_OPTS=" + string(ob)})
+	if err != nil {
+		return nil, fmt.Errorf("batch child: %v\n%s", err, tail(string(b), 3000))
+	}
+	rb, err := os.ReadFile(out)
+	if err != nil {
+		return nil, err
+	}
+	var rep struct {
+		Batch []struct {
+			Status, Panic, Detail string
+			Choices               []int
+			Tries                 int
+		}
+	}
+	if err := json.Unmarshal(rb, &rep); err != nil {
+		return nil, err
+	}
+	if len(rep.Batch) != len(progs) {
+		return nil, fmt.Errorf("batch child returned %d results for %d programs", len(rep.Batch), len(progs))
+	}
+	return rep.Batch, nil
+}
+
+func part2(run *vlib.Run, bt *built) bool {
+	t0 := time.Now()
+	deadline := 70 * time.Second
+	if run.Thorough() {
+		deadline = 11 * time.Minute
+	}
+	var progs []*semProg
+	var planDescr []string
+	for _, pl := range semPlans(run.Thorough()) {
+		en := newEnumerator(pl.Alpha)
+		for _, n := range pl.Sizes {
+			bodies := en.programs(n)
+			planDescr = append(planDescr, fmt.Sprintf("uint%d/%s/size%d:%d", pl.Rsize, pl.Alpha.Name, n, len(bodies)))
+			for _, body := range bodies {
+				progs = append(progs, &semProg{Rsize: pl.Rsize, Size: n, Alpha: pl.Alpha.Name, Source: sourceOf(body, pl.Rsize), Expect: "accepted"})
+			}
+		}
+	}
+	for _, x := range rejectedExprs {
+		for _, rs := range []int{8, 16} {
+			body := []*stmt{{text: "a = " + x, kind: "assign"}, {text: "bondgo.IOWrite(o0, a)", kind: "write"}}
+			progs = append(progs, &semProg{Rsize: rs, Size: 2, Alpha: "rejected-operators", Source: sourceOf(body, rs), Expect: "rejected"})
+		}
+	}
+	if *semCount {
+		fmt.Println(len(progs), strings.Join(planDescr, " "))
+		os.Exit(0)
+	}
+	// de-duplicate identical sources (alphabets overlap)
+	seen := map[string]bool{}
+	uniq := progs[:0]
+	for _, p := range progs {
+		k := fmt.Sprint(p.Rsize, "|", p.Source)
+		if seen[k] {
+			continue
+		}
+		seen[k] = true
+		uniq = append(uniq, p)
+	}
+	progs = uniq
+	for i, p := range progs {
+		p.ID = i
+		p.dir = filepath.Join(bt.Scratch, "sem", fmt.Sprintf("p%06d", i))
+		p.src = filepath.Join(bt.Scratch, "sem", "src", fmt.Sprintf("p%06d.go", i)) // outside p.dir: the child empties the working directory before every run
+		os.MkdirAll(filepath.Dir(p.src), 0o755)
+		os.WriteFile(p.src, []byte(p.Source), 0o644)
+	}
+
+	// work in batches: compile (child process) then execute + compare (this process)
+	const batchSize = 64
+	type batch struct{ lo, hi, rsize int }
+	var batches []batch
+	for lo := 0; lo < len(progs); {
+		hi := lo
+		for hi < len(progs) && hi-lo < batchSize && progs[hi].Rsize == progs[lo].Rsize {
+			hi++
+		}
+		batches = append(batches, batch{lo, hi, progs[lo].Rsize})
+		lo = hi
+	}
+	outcomes := make([]*semOutcome, len(progs))
+	var mu sync.Mutex
+	var harnessErr error
+	capHit := false
+	var wg sync.WaitGroup
+	work := make(chan batch)
+	for w := 0; w < 14; w++ {
+		wg.Add(1)
+		go func() {
+			defer wg.Done()
+			xw, err := startExecWorker()
+			if err != nil {
+				mu.Lock()
+				if harnessErr == nil {
+					harnessErr = err
+				}
+				mu.Unlock()
+				for range work {
+				}
+				return
+			}
+			defer xw.stop()
+			for b := range work {
+				if time.Since(t0) > deadline {
+					mu.Lock()
+					capHit = true
+					mu.Unlock()
+					continue
+				}
+				ps := progs[b.lo:b.hi]
+				tc := time.Now()
+				rs, err := compileBatch(bt, ps, b.rsize, fmt.Sprint(b.lo))
+				tCompile.add(tc)
+				if err != nil {
+					mu.Lock()
+					if harnessErr == nil {
+						harnessErr = err
+					}
+					mu.Unlock()
+					continue
+				}
+				for i, p := range ps {
+					oc := judge(xw, p, rs[i].Status, rs[i].Panic, rs[i].Detail, rs[i].Choices)
+					outcomes[p.ID] = oc
+					os.RemoveAll(p.dir)
+					os.Remove(p.src)
+				}
+			}
+		}()
+	}
+	for _, b := range batches {
+		work <- b
+	}
+	close(work)
+	wg.Wait()
+	if harnessErr != nil {
+		fatalHarness("part 2: %v", harnessErr)
+	}
+
+	// classification
+	counts := map[string]int{}
+	var failing []*semOutcome
+	distinct := map[string]bool{}
+	done := 0
+	for _, oc := range outcomes {
+		if oc == nil {
+			continue
+		}
+		done++
+		counts[oc.Class]++
+		if oc.Class == "ok" {
+			distinct[fmtOuts(oc.Expected, 2)] = true
+		}
+		switch {
+		case oc.Class == "ok", oc.Class == "rejected-as-expected", strings.HasPrefix(oc.Class, "not-executed:"), strings.HasPrefix(oc.Class, "skipped:"), oc.Class == "accepted-unexpectedly":
+		case strings.HasPrefix(oc.Class, "harness:"):
+			fatalHarness("part 2 cannot handle a program it generated (%s: %s):\n%s", oc.Class, oc.Detail, oc.Prog.Source)
+		default:
+			failing = append(failing, oc)
+		}
+		if oc.ISADisagrees {
+			counts["note:isa-model-disagrees-but-hardware-matches-source"]++
+			if *verbose && counts["note:isa-model-disagrees-but-hardware-matches-source"] <= 3 {
+				fmt.Printf("note: ISA model disagrees but hardware matches source: `%s` asm: %s\n", bodyOf(oc.Prog.Source), strings.ReplaceAll(strings.TrimSpace(oc.Asm), "\n", "; "))
+			}
+		}
+	}
+	reportSemFailures(run, failing)
+	run.Set("part2_programs_enumerated", len(progs))
+	run.Set("part2_programs_done", done)
+	run.Set("part2_classes", counts)
+	run.Set("part2_compared_ok", counts["ok"])
+	run.Set("part2_distinct_output_traces", len(distinct))
+	run.Set("part2_enumeration", planDescr)
+	run.Set("part2_wall_s", time.Since(t0).Seconds())
+	if capHit {
+		run.Set("part2_cap_hit", fmt.Sprintf("deadline %v: %d of %d programs done", deadline, done, len(progs)))
+		run.Set("exhaustive", false)
+	}
+	run.Assume("part 2 observes the outputs of the generated HDL during the FIRST pass of the program (the emitted code has no halt: the program counter runs past the last instruction and wraps); the consumer acknowledges every output immediately (oK_received = 1), inputs hold the constant 0x5A with valid = 1")
+	run.Assume("part 2 compiles each program under the controlled scheduler along the first completing schedule found (the shipped compiler hangs in free runs, see part 1); part 1 shows the emitted artefacts do not depend on the schedule")
+	// samples
+	n := 0
+	for _, oc := range outcomes {
+		if oc != nil && oc.Class == "ok" && oc.Prog.Size >= 3 && n < 2 {
+			n++
+			run.Sample(map[string]any{"kind": "semantics ok", "source": strings.Split(oc.Prog.Source, "\n"), "outputs": fmtOuts(oc.Expected, 2)})
+		}
+	}
+	if *verbose {
+		fmt.Printf("part2: %d programs (%s), %d done in %.1fs: %v\n", len(progs), strings.Join(planDescr, " "), done, time.Since(t0).Seconds(), counts)
+		fmt.Printf("part2 cumulative worker time: compile %.1fs render(+lock wait) %.1fs parse/elaborate/simulate %.1fs\n", tCompile.d.Seconds(), tRender.d.Seconds(), tSim.d.Seconds())
+	}
+	return true
+}
+
+func runRaw(bin string, args []string, dir string, env []string) ([]byte, error) {
+	c := exec.Command(bin, args...)
+	c.Dir = dir
+	c.Env = append(os.Environ(), env...)
+	return c.CombinedOutput()
+}
+
+// judge turns one compiled program into an outcome.
+func judge(xw *execWorker, p *semProg, status, panicMsg, detail string, choices []int) *semOutcome {
+	oc := &semOutcome{Prog: p}
+	logb, _ := os.ReadFile(filepath.Join(p.dir, ".c12.stdout"))
+	oc.Log = string(logb)
+	asm, _ := os.ReadFile(filepath.Join(p.dir, "out.asm"))
+	oc.Asm = string(asm)
+	mj, mjErr := os.ReadFile(filepath.Join(p.dir, "m.json"))
+	switch status {
+	case "panic":
+		oc.Class, oc.Detail = "compile-panic", panicMsg
+		return oc
+	case "completed":
+	default:
+		oc.Class, oc.Detail = "compile-"+status, detail
+		return oc
+	}
+	if mjErr != nil { // the compiler refused the program (Set_faulty): no artefact
+		msg := firstLine(oc.Log)
+		if p.Expect == "rejected" {
+			oc.Class = "rejected-as-expected"
+			return oc
+		}
+		oc.Class, oc.Detail = "rejected", msg
+		return oc
+	}
+	if p.Expect == "rejected" {
+		oc.Class, oc.Detail = "accepted-unexpectedly", ""
+		return oc
+	}
+	oc.Missing = missingOpcodes(mj, oc.Asm)
+	ref := refEval(p.Source, p.Rsize)
+	if ref.Err != "" {
+		if ref.Timeout {
+			oc.Class = "skipped:source-does-not-terminate"
+		} else {
+			oc.Class, oc.Detail = "harness:evaluator", ref.Err
+		}
+		return oc
+	}
+	oc.Expected = ref.Outs
+	isaOuts, isaStatus := runISA(oc.Asm, p.Rsize, 200+40*ref.Steps)
+	h := xw.run(mj, oc.Asm, 400+80*ref.Steps)
+	oc.Got = h.Outs
+	n := ref.NOut
+	if h.M > n {
+		n = h.M
+	}
+	if h.Status == "ran" && outsEqual(ref.Outs, h.Outs, n) {
+		oc.Class = "ok"
+		if isaStatus != "ran" || !outsEqual(ref.Outs, isaOuts, n) {
+			oc.ISADisagrees = true
+		}
+		return oc
+	}
+	if h.Status == "empty-program" {
+		// the compiler's own assembler refused the emitted assembly for the requested machine
+		oc.Class, oc.Detail = "assembly-not-runnable", assemblerMessage(oc.Log)
+		return oc
+	}
+	// layer attribution
+	if strings.HasPrefix(isaStatus, "isa-model") {
+		oc.Class, oc.Detail = "harness:isa-model", isaStatus
+		if h.Status == "ran" {
+			oc.Class, oc.Detail = "mismatch-unattributed", fmt.Sprintf("expected %s, generated hardware wrote %s (%s)", fmtOuts(ref.Outs, n), fmtOuts(h.Outs, n), isaStatus)
+		}
+		return oc
+	}
+	if isaStatus != "ran" || !outsEqual(ref.Outs, isaOuts, n) {
+		oc.Class = "codegen-mismatch"
+		oc.Detail = fmt.Sprintf("source writes %s; the emitted assembly under the ISA model writes %s (%s); generated hardware: %s (%s)", fmtOuts(ref.Outs, n), fmtOuts(isaOuts, n), isaStatus, fmtOuts(h.Outs, n), h.Status)
+		return oc
+	}
+	switch h.Status {
+	case "not-simulable":
+		oc.Class, oc.Detail = "not-executed:not-simulable", h.Detail
+	case "rom-full":
+		oc.Class = "not-executed:rom-full"
+	default: // ran with other outputs, or no-end
+		oc.Class = "machine-mismatch"
+		oc.Machine = h.Diverg
+		if oc.Machine == "" {
+			oc.Machine = "unattributed"
+		}
+		oc.Detail = fmt.Sprintf("source (and the ISA model of the emitted assembly) write %s, the generated hardware writes %s (%s after %d cycles); first divergence: %s", fmtOuts(ref.Outs, n), fmtOuts(h.Outs, n), h.Status, h.Cycles, h.DivHow)
+	}
+	return oc
+}
+
+// missingOpcodes lists the opcodes of the emitted assembly that the requested machine does not have.
+func missingOpcodes(machJSON []byte, asm string) []string {
+	var mj struct{ Op []string }
+	if json.Unmarshal(machJSON, &mj) != nil {
+		return nil
+	}
+	have := map[string]bool{}
+	for _, o := range mj.Op {
+		have[o] = true
+	}
+	miss := map[string]bool{}
+	prog, _ := parseAsm(asm)
+	for _, in := range prog {
+		if !have[in.op] {
+			miss[in.op] = true
+		}
+	}
+	return keys(miss)
+}
+
+func firstLine(s string) string {
+	s = strings.TrimSpace(s)
+	if i := strings.Index(s, "\n"); i >= 0 {
+		s = s[:i]
+	}
+	return s
+}
+
+// assemblerMessage extracts what the compiler printed after the requirements dump.
+func assemblerMessage(log string) string {
+	if i := strings.LastIndex(log, "--- Shared Memory ---"); i >= 0 {
+		return strings.TrimSpace(log[i+len("--- Shared Memory ---"):])
+	}
+	return firstLine(log)
+}
+
+func msgClass(s string) string {
+	var b strings.Builder
+	for _, r := range strings.ToLower(firstLine(s)) {
+		switch {
+		case r >= 'a' && r <= 'z':
+			b.WriteRune(r)
+		case r == ' ' || r == '-':
+			b.WriteByte('-')
+		}
+	}
+	t := strings.Trim(b.String(), "-")
+	for strings.Contains(t, "--") {
+		t = strings.ReplaceAll(t, "--", "-")
+	}
+	if len(t) > 48 {
+		t = t[:48]
+	}
+	return t
+}
+
+type semReplay struct {
+	Part     string `json:"part"`
+	Rsize    int    `json:"register_size"`
+	Source   string `json:"source"`
+	Class    string `json:"class"`
+	Expected string `json:"expected_outputs"`
+	Got      string `json:"observed"`
+}
+
+// reportSemFailures turns the failing programs into findings.  Failures whose cause is identified
+// from the artefacts get one signature per cause (opcode whose hardware diverges, assembler message,
+// opcode missing from the requested machine, known structural trigger); the rest is grouped per
+// failure class by the minimal construct sets (w.r.t. inclusion) of the failing programs.
+func reportSemFailures(run *vlib.Run, failing []*semOutcome) {
+	type group struct {
+		sig   string
+		descr string
+		feat  []string // generic groups only
+		first *semOutcome
+		n     int
+	}
+	sort.SliceStable(failing, func(i, j int) bool {
+		if failing[i].Prog.Size != failing[j].Prog.Size {
+			return failing[i].Prog.Size < failing[j].Prog.Size
+		}
+		return failing[i].Prog.ID < failing[j].Prog.ID
+	})
+	var order []*group
+	bySig := map[string]*group{}
+	generic := map[string][]*group{} // class -> groups
+	add := func(sig, descr string, oc *semOutcome) {
+		g := bySig[sig]
+		if g == nil {
+			g = &group{sig: sig, descr: descr, first: oc}
+			bySig[sig] = g
+			order = append(order, g)
+		}
+		g.n++
+	}
+	for _, oc := range failing {
+		fs := features(oc.Prog.Source)
+		has := func(x string) bool { return subset([]string{x}, fs) }
+		switch oc.Class {
+		case "compile-panic":
+			add("C12|compiler|panic-while-compiling|"+panicClass(oc.Detail), "bondgo panics while compiling", oc)
+			continue
+		case "compile-no-completing-schedule", "compile-steplimit", "compile-nondeterminism":
+			add("C12|compiler|"+strings.TrimPrefix(oc.Class, "compile-"), "bondgo does not complete the compilation", oc)
+			continue
+		case "rejected":
+			add("C12|compiler|rejects-construct-of-the-subset|"+msgClass(oc.Detail), "bondgo refuses (Set_faulty) a program of the accepted subset", oc)
+			continue
+		case "assembly-not-runnable":
+			mc := msgClass(strings.Split(oc.Detail, ",")[0])
+			if strings.HasPrefix(mc, "unknown-opcode") {
+				mc = "opcode-emitted-but-not-requested|" + strings.Join(oc.Missing, "+")
+			}
+			add("C12|codegen|assembly-not-runnable-on-requested-machine|"+mc, "the assembler of the machine bondgo requests refuses the assembly bondgo emits (the saved machine has an empty program)", oc)
+			continue
+		case "machine-mismatch":
+			add("C12|machine|opcode-hardware-diverges-from-isa|"+oc.Machine, "the hardware generated for this opcode does not do what the emitted assembly relies on", oc)
+			continue
+		case "codegen-mismatch":
+			if has("incdec-nested") {
+				add("C12|codegen|mismatch|incdec-inside-nested-compound", "the code emitted for ++/-- (also as the post statement of a for) inside a compound statement nested in another one lands in the wrong place", oc)
+				continue
+			}
+		}
+		// generic grouping by minimal construct sets
+		placed := false
+		for _, g := range generic[oc.Class] {
+			if subset(g.feat, fs) {
+				g.n++
+				placed = true
+				break
+			}
+		}
+		if !placed {
+			g := &group{sig: "C12|semantics|" + oc.Class + "|" + strings.Join(fs, "+"), descr: "programs using these constructs fail", feat: fs, first: oc, n: 1}
+			generic[oc.Class] = append(generic[oc.Class], g)
+			order = append(order, g)
+		}
+	}
+	for _, g := range order {
+		oc := g.first
+		what := fmt.Sprintf("%s (%d generated programs, class %s); smallest: register size %d, body `%s`: %s", g.descr, g.n, oc.Class, oc.Prog.Rsize, bodyOf(oc.Prog.Source), oc.Detail)
+		if oc.Asm != "" {
+			what += " | emitted assembly: " + strings.ReplaceAll(strings.TrimSpace(oc.Asm), "\n", "; ")
+		}
+		run.Report(g.sig, what, semReplay{Part: "semantics", Rsize: oc.Prog.Rsize, Source: oc.Prog.Source, Class: oc.Class, Expected: fmtOuts(oc.Expected, 2), Got: oc.Detail})
+	}
+}
+
+func subset(a, b []string) bool {
+	m := map[string]bool{}
+	for _, x := range b {
+		m[x] = true
+	}
+	for _, x := range a {
+		if !m[x] {
+			return false
+		}
+	}
+	return true
+}
+
+func bodyOf(src string) string {
+	i := strings.Index(src, "func main()")
+	var out []string
+	for _, l := range strings.Split(src[i:], "\n")[1:] {
+		t := strings.TrimSpace(l)
+		if t == "" || strings.HasPrefix(t, "var ") || strings.Contains(t, "bondgo.Make") {
+			continue
+		}
+		out = append(out, t)
+	}
+	if len(out) > 0 && out[len(out)-1] == "}" {
+		out = out[:len(out)-1]
+	}
+	return strings.Join(out, " ")
+}
+
+func replaySem(run *vlib.Run, bt *built) {
+	var ro semReplay
+	if _, err := vlib.LoadReplay(run.Replay, &ro); err != nil {
+		fatalHarness("replay file: %v", err)
+	}
+	semOne(bt, ro)
+}
+
+func semOne(bt *built, ro semReplay) {
+	p := &semProg{Rsize: ro.Rsize, Source: ro.Source, Expect: "accepted"}
+	p.dir = filepath.Join(bt.Scratch, "sem", "replay")
+	p.src = filepath.Join(bt.Scratch, "sem", "replay.go")
+	os.MkdirAll(p.dir, 0o755)
+	os.WriteFile(p.src, []byte(p.Source), 0o644)
+	fmt.Printf("  register size %d, program:\n%s\n", ro.Rsize, indent(ro.Source))
+	rs, err := compileBatch(bt, []*semProg{p}, p.Rsize, "replay")
+	if err != nil {
+		fatalHarness("%v", err)
+	}
+	fmt.Printf("  compiled by the compiler built from the current /repo tree: status=%s schedule=%v %s\n", rs[0].Status, rs[0].Choices, rs[0].Panic)
+	xw, err := startExecWorker()
+	if err != nil {
+		fatalHarness("%v", err)
+	}
+	defer xw.stop()
+	oc := judge(xw, p, rs[0].Status, rs[0].Panic, rs[0].Detail, rs[0].Choices)
+	if oc.Log != "" {
+		fmt.Printf("  compiler output:\n%s\n", indent(oc.Log))
+	}
+	if oc.Asm != "" {
+		fmt.Printf("  emitted assembly:\n%s\n", indent(oc.Asm))
+	}
+	fmt.Printf("  reference evaluation (Go semantics, wrap-around at %d bits): %s\n", ro.Rsize, fmtOuts(oc.Expected, 2))
+	fmt.Printf("  generated hardware under vsim:                           %s\n", fmtOuts(oc.Got, 2))
+	fmt.Printf("RESULT: class=%s %s\n", oc.Class, oc.Detail)
+}
